@@ -26,6 +26,7 @@ import (
 	"strconv"
 	"strings"
 	"sync"
+	"sync/atomic"
 
 	scalibr "github.com/google/osv-scalibr"
 	"github.com/google/osv-scalibr/binary/cdx"
@@ -116,6 +117,29 @@ func norm(u purl.PackageURL) (purl.PackageURL, bool) {
 	return v, err == nil
 }
 
+// canonName mirrors Scalibr.Sbom.canonName (lean/Scalibr/Spec/Sbom.lean).
+func canonName(s string) string {
+	return strings.Map(func(c rune) rune {
+		if c == '_' || c == '.' {
+			return '-'
+		}
+		return []rune(strings.ToLower(string(c)))[0]
+	}, s)
+}
+
+// normLawViolations counts purls on which the real library breaks `NormLaws` (idempotent, version untouched, name equal
+// up to canonName) — the constraint the C15 `_partial` theorems put on `norm`. Reported on stderr and as exit status 3.
+var normLawViolations int32
+
+func checkNormLaws(u, n purl.PackageURL) {
+	n2, ok := norm(n)
+	if !ok || n2.String() != n.String() || n.Version != u.Version || canonName(n.Name) != canonName(u.Name) {
+		if atomic.AddInt32(&normLawViolations, 1) <= 5 {
+			fmt.Fprintf(os.Stderr, "c15gen: NormLaws violated by the purl library: %q -> %q (again: %q, ok=%v)\n", u.String(), n.String(), n2.String(), ok)
+		}
+	}
+}
+
 func hs(s string) string {
 	if s == "" {
 		return "_"
@@ -184,6 +208,7 @@ func (c tcase) line() string {
 		u := p.purl()
 		fmt.Fprintf(&sb, " 1 %s %s %s %s %s %s %s", hs(p.typ), hs(p.ns), hs(p.pname), hs(p.pversion), qs, hs(p.subpath), hs(u.String()))
 		if n, ok := norm(u); ok {
+			checkNormLaws(u, n)
 			fmt.Fprintf(&sb, " %s %s %s", hs(n.String()), hs(n.Name), hs(n.Version))
 		} else {
 			sb.WriteString(" ! - -")
@@ -354,7 +379,13 @@ var qualKeys = []string{purl.Distro, purl.Epoch, purl.Arch, purl.Origin, purl.So
 	purl.BuildNumber, purl.PackageDependencies, purl.Classifier, purl.Type, "repository_url", "file_name", "Arch", "vcs_url"}
 
 var plainNames = []string{"pkg", "libc6", "zope.interface", "Zope_Interface", "left-pad", "q", "socket.io", "libstdc++", "Django",
-	"python3.11", "org.json", "core", "x", "gtk+3.0", "foo_bar", "A", "lodash.merge", "7zip"}
+	"python3.11", "org.json", "core", "x", "gtk+3.0", "foo_bar", "A", "lodash.merge", "7zip",
+	// names that collide with the exporters' own structural vocabulary: the SPDX wrapper package ("main", id
+	// SPDXRef-Package-main-<uuid>), the document ids and names, the NOASSERTION / NONE specials, the tool name, and names
+	// whose sanitised SPDX ids coincide (a_b / a-b / a+b all give SPDXRef-Package-a-b-<uuid>)
+	"main", "main-bower-files", "main_menu", "main@x", "main.js", "main/sub", "Package-main", "Package-main-1", "SPDXRef-Package-main",
+	"SPDXRef-DOCUMENT", "SPDXRef-Document", "DOCUMENT", "Document", "NOASSERTION", "NONE", "SCALIBR", "SCALIBR-generated SPDX",
+	"a_b", "a-b", "a+b", "a.b", "Tool", "bom-ref", "metadata", "component"}
 var plainVersions = []string{"1.0.0", "1:2.3-4~x", "2.0.0-rc.1+build.5", "v1.2.3", "0", "1.0", "20240101", "1.2.3-r0", "2:1.02.175-2.1ubuntu4", "5.0_p1", "1.0.0.Final", "3.11.4~rc1"}
 var plainValues = []string{"amd64", "bookworm", "a b", "1", "jar", "x86_64", "ubuntu-22.04", "glibc-2.36-9+deb12u3", "https://example.com/repo?x=1&y=2", "a:b", "1~2+3", "sources"}
 var plainPaths = []string{"usr/lib/node_modules/a/package.json", "var/lib/dpkg/status", "a b/c.json", "f", "opt/app/pom.xml", "lib/apk/db/installed", "x/y/z/Cargo.lock"}
@@ -578,6 +609,20 @@ func fixedInventories() [][]pk {
 		{name: "cpeonly", version: "1", locs: []string{"f"}, cpes: []string{"cpe:2.3:a:v:p:1:*:*:*:*:*:*:*"}},
 	}
 	out = append(out, probe)
+	// structural-vocabulary collisions, always present whatever the seed
+	vocab := func(names ...string) []pk {
+		var ps []pk
+		for _, n := range names {
+			ps = append(ps, mk("npm", "", n, "1.0.0", nil, ""))
+		}
+		return ps
+	}
+	out = append(out,
+		vocab("main"), vocab("main", "x"), vocab("main-bower-files", "main_menu", "main@x", "main.js"),
+		vocab("Package-main", "Package-main-1", "SPDXRef-Package-main", "SPDXRef-DOCUMENT", "DOCUMENT", "Document"),
+		vocab("NOASSERTION", "NONE", "SCALIBR", "SCALIBR-generated SPDX", "Tool"),
+		vocab("a_b", "a-b", "a+b", "a.b"), vocab("bom-ref", "metadata", "component"),
+		[]pk{mk("pypi", "", "main", "1", nil, ""), mk("gem", "", "main", "1", nil, ""), mk("generic", "", "main", "2", nil, "")})
 	return out
 }
 
@@ -599,7 +644,14 @@ func main() {
 	must(err)
 	defer os.RemoveAll(tmp)
 	out := hx.NewOut()
-	defer out.Flush()
+	defer func() {
+		out.Flush()
+		if n := atomic.LoadInt32(&normLawViolations); n > 0 {
+			fmt.Fprintf(os.Stderr, "c15gen: the purl library violated NormLaws on %d purl(s)\n", n)
+			os.RemoveAll(tmp)
+			os.Exit(3)
+		}
+	}()
 	// Cases are independent (own temp dir each): run a batch on a few goroutines, print in generation order.
 	// The case line is rebuilt from the inventory so that raw/norm always come from the current library.
 	var pending []tcase
